@@ -12,7 +12,7 @@ import warnings
 import numpy as np
 
 from symx import core, arrays
-from symx.core import fresh_int, assume, prove, sand, sor, snot, implies, iff
+from symx.core import fresh_int, fresh_bool, assume, prove, sand, sor, snot, implies, iff
 from symx.run import Ob
 from harness import common as H, ctx, C03
 
@@ -348,6 +348,89 @@ def nat_perchunk(params, model):
         shutil.rmtree(base, ignore_errors=True)
 
 
+# ---------------------------------------------------------------------------- explicit job groupings, partial merges
+def run_groups(L, obj, base, cuts, mask):
+    """Jobs = consecutive groups of dependency chunks (cut after chunk i iff cuts[i]); m1 is made per job; then the jobs
+    selected by `mask` are merged with an explicit chunk_number_group."""
+    import strax
+
+    a = os.path.join(base, "a")
+    P = _plugins(L, obj)
+    st = ctx.make_context(P, storage=[strax.DataDirectory(a)])
+    st.make(RUN, "src", processor="single_thread")
+    n = len(L.chunks)
+    jobs, cur = [], []
+    for i in range(n):
+        cur.append(i)
+        if i == n - 1 or cuts[i]:
+            jobs.append(cur)
+            cur = []
+    for job in jobs:
+        st.make(RUN, "m1", chunk_number={"src": job}, processor="single_thread")
+    chosen = [job for job, m in zip(jobs, mask) if m]
+    try:
+        st.merge_per_chunk_storage(RUN, "m1", "src", chunk_number_group=chosen, rechunk=False)
+    except ValueError:
+        return jobs, chosen, "rejected", None
+    st2 = ctx.make_context(P, storage=[strax.DataDirectory(a, readonly=True)], forbid_creation_of=("m1", "src"))
+    complete = st2.is_stored(RUN, "m1")
+    chunks = list(st2.get_iter(RUN, "m1", processor="single_thread", progress_bar=False)) if complete else None
+    return jobs, chosen, complete, chunks
+
+
+def _groups_choice(n, pick):
+    cuts = [bool(pick(f"cut{i}")) for i in range(n - 1)]
+    njobs = 1 + sum(cuts)
+    mask = [bool(pick(f"take{j}")) for j in range(njobs)]
+    return cuts, mask
+
+
+def _check_groups(jobs, chosen, complete, chunks, L, S, E):
+    covered = sorted(i for job in chosen for i in job)
+    is_all = covered == list(range(len(L.chunks)))
+    if complete == "rejected":
+        # a partial merge that skips chunks in the middle has no valid key: refusing it is fine, storing it is not
+        consecutive = covered == list(range(covered[0], covered[0] + len(covered)))
+        prove(not consecutive, f"groups:merging jobs {chosen} of {jobs} was refused with ValueError")
+        return [jobs, chosen, "rejected"]
+    prove(complete == is_all, f"groups:merging jobs {chosen} of {jobs} -> stored as the complete data type = {complete}")
+    if complete:
+        _same(chunks, L, "groups", S, E)
+    return [jobs, chosen]
+
+
+def sym_groups(layout):
+    S = fresh_int("S", 0, H.T_MAX); E = fresh_int("E", 0, H.T_MAX)
+    L = ctx.sym_layout("src_", layout, S, E=E)
+    cuts, mask = _groups_choice(len(layout), lambda nm: fresh_bool(nm))
+    if not any(mask):
+        raise core.PathAbort("nothing to merge")
+    if sum(mask) == 1 and len(mask) > 1:
+        # merging ONE job that is not the whole run targets that job's own storage key (DataExistsError): degenerate
+        raise core.PathAbort("single partial job")
+    base = tempfile.mkdtemp(prefix="verif_c16_")
+    try:
+        jobs, chosen, complete, chunks = run_groups(L, True, base, cuts, mask)
+        return _check_groups(jobs, chosen, complete, chunks, L, S, E)
+    finally:
+        shutil.rmtree(base, ignore_errors=True)
+
+
+def nat_groups(params, model):
+    S, E = model["S"], model["E"]
+    L = ctx.conc_layout(model, "src_", params["layout"], S, E=E)
+    cuts, mask = _groups_choice(len(params["layout"]), lambda nm: model.get(nm, False))
+    base = tempfile.mkdtemp(prefix="verif_c16n_")
+    try:
+        with warnings.catch_warnings():
+            warnings.simplefilter("ignore")
+            jobs, chosen, complete, chunks = run_groups(L, False, base, cuts, mask)
+        label = core.concrete_run(lambda: _check_groups(jobs, chosen, complete, chunks, L, S, E), model)
+        return {"ok": label is None, "detail": label or "partial merges stay partial, complete ones equal the data", "label": label}
+    finally:
+        shutil.rmtree(base, ignore_errors=True)
+
+
 def sym_twin():
     sym_copy([1, 1])
     prove(False, "twin:reachable")
@@ -386,6 +469,10 @@ OBLIGATIONS = [
     Ob("standalone", sym_standalone, lambda tier: [dict(layout=l, replace=rp, target=t) for l in _lays(tier)
                                                    for rp in (False, True) for t in (1, 2)] +
        [dict(layout=[2, 1], compressor="zstd", target=3)], nat_standalone, setup=_setup, witnesses=1),
+    Ob("groups", sym_groups, lambda tier: [dict(layout=l) for l in ([[1, 1, 1]] if tier == "quick" else [[1, 1, 1], [1, 1, 1, 1], [2, 0, 1]])],
+       nat_groups, setup=_setup, witnesses=1,
+       doc="solver-chosen grouping of dependency chunks into jobs and solver-chosen subset of jobs merged: stored as the "
+           "complete data type iff the subset covers every chunk, and then equal to the directly made data"),
     Ob("perchunk", sym_perchunk, lambda tier: [dict(layout=l, rechunk=r) for l in _lays(tier) for r in (False, True)],
        nat_perchunk, setup=_setup, witnesses=1),
     Ob("twin", sym_twin, lambda tier: [dict()], None, setup=_setup, expect_cex=True),
